@@ -20,6 +20,7 @@ import (
 	"strings"
 	"time"
 
+	"github.com/lucasjones/reggen"
 	"golang.org/x/tools/go/ssa"
 )
 
@@ -449,21 +450,24 @@ func jsonEmpty(v Val) bool {
 	return false
 }
 
-// ---- reggen: called natively through a tiny shim (the package is a module dependency of /repo;
-// the engine does not link it, so generation is delegated to the native replay binary when needed).
+// ---- reggen: the real package (a dependency of /repo, present in the module cache) is linked into the engine.
 
 type reggenGen struct {
 	pat  string
 	seed int64
+	g    *reggen.Generator
 }
 
 func newReggen(pat string) (*reggenGen, error) {
-	if _, err := regexp.Compile(pat); err != nil {
+	g, err := reggen.NewGenerator(pat)
+	if err != nil {
 		return nil, err
 	}
-	return &reggenGen{pat: pat}, nil
+	return &reggenGen{pat: pat, g: g}, nil
 }
 
+// generate calls the real generator natively (same module version as /repo uses, same seed => same text).
 func (g *reggenGen) generate(limit int) Val {
-	panic(unsupported{"reggen.Generate (regex example generation is not modelled)"})
+	g.g.SetSeed(g.seed)
+	return g.g.Generate(limit)
 }
